@@ -11,6 +11,7 @@ import (
 	"github.com/vektah/gqlparser/v2/ast"
 	"github.com/vektah/gqlparser/v2/gqlerror"
 	"github.com/vektah/gqlparser/v2/parser"
+	"github.com/vektah/gqlparser/v2/validator"
 
 	"verif/mc/explore"
 	"verif/mc/gen"
@@ -284,6 +285,11 @@ func c17Case(c *explore.Ctx, s *explore.SubStats, in c17Input, cn *c17Canon) {
 		if x.Name == file {
 			src = x
 		}
+	}
+	if src == nil && file == validator.Prelude.Name {
+		// an error located in the built-in definitions: acceptable when one of them is involved
+		// (e.g. an extension of a built-in type that names an undefined interface)
+		src = validator.Prelude
 	}
 	if src == nil {
 		bad("order/error-unknown-file", fmt.Sprintf("the load error names file %q which is not one of the sources: %s", file, ge.Message), "", "")
